@@ -6,6 +6,8 @@ class SameID:
     if previous.record_type != self.record_type:
       return super()._process_not_unique(previous)
     # check the tags first, so that nothing is merged if they are inconsistent
+    # (the values are read here, where a failure leaves everything unchanged)
+    imported_tags = []
     for tag in previous.tagnames:
       prv = previous.get(tag)
       cur = self.get(tag)
@@ -16,6 +18,10 @@ class SameID:
           "Previous tag definition: {}\n".format(prv)+
           "New tag definition: {}\n".format(cur)+
           "Group ID: {}".format(self.name))
+      if cur is None:
+        # (the value as it is stored, parsed or not)
+        imported_tags.append((tag, previous.get_datatype(tag),
+                              previous._data[tag]))
     self._gfa = previous.gfa
     try:
       self._initialize_references()
@@ -26,7 +32,9 @@ class SameID:
     self._substitute_virtual_line(previous)
     self._set_existing_field("items", self.get("items") + cur_items, 
                             set_reference = True)
-    self._import_tags_of_previous_group_definition(previous)
+    for tag, datatype, value in imported_tags:
+      self.set_datatype(tag, datatype)
+      self._data[tag] = value
     return None
 
   def _import_tags_of_previous_group_definition(self, previous):
